@@ -7,6 +7,14 @@ import Sigc.AdaptLemmas
   documentation (insert at I, append, erase index, drop last, convert, constant result, composition,
   catcher iff throw, identity).  All theorems hold for every arity, every position, every number of
   bound values and every nesting depth.
+
+  Results have identity: a target may return `T&` / `const T&` to a designated object (`Val.ref`); "returns the
+  result of the wrapped functor" means that very reference.  How each call operator hands the result on is the
+  explicit table `resultMode`, one row per call operator — the non-template nullary overloads `operator()()` of
+  `adaptor_functor`, `bind_return_functor` and `exception_catch_functor` are rows of their own (`decltype(auto)` or
+  `unwrap_reference<T_return>::type` everywhere in the current code); `impl_eq_spec` is proved for the table as it
+  is, `decay_witness` / `nullary_decay_witness` show that it fails as soon as one row goes through a by-value type
+  (`std::common_type_t`, `auto`).
 -/
 namespace Sigc.C10
 open Sigc.Adapt
@@ -36,7 +44,7 @@ example : invokeEach (fun n : Nat => n + 1) [1, 2, 3] = [2, 3, 4] := by decide
 theorem bind_insert (i : Nat) (bs args : List Val) (f : FExpr) (h : i ≤ args.length) :
     callImpl (.un (.bind (some i) bs) f) args = callImpl f (args.take i ++ bs ++ args.drop i) := by
   have := argsImpl_eq_argsSpec (.bind (some i) bs) args (by simp [nodeArity, h])
-  simp only [callImpl, this, argsSpec, Outcome.mapRes]
+  simp only [callImpl_un, this, argsSpec, Outcome.mapRes]
   cases (callImpl f (args.take i ++ bs ++ args.drop i)) with
   | mk log res => cases res <;> rfl
 
@@ -47,7 +55,7 @@ example : (callImpl (.un (.bind (some 1) [.num .int 7, .num .int 8]) (.leaf 0 [.
 theorem bind_append (bs args : List Val) (f : FExpr) :
     callImpl (.un (.bind none bs) f) args = callImpl f (args ++ bs) := by
   have := argsImpl_eq_argsSpec (.bind none bs) args (by simp [nodeArity])
-  simp only [callImpl, this, argsSpec, Outcome.mapRes]
+  simp only [callImpl_un, this, argsSpec, Outcome.mapRes]
   cases (callImpl f (args ++ bs)) with
   | mk log res => cases res <;> rfl
 
@@ -58,7 +66,7 @@ example : (callImpl (.un (.bind none [.num .int 7, .num .int 8]) (.leaf 0 [.int,
 theorem hide_erase (i : Nat) (args : List Val) (f : FExpr) (h : i < args.length) :
     callImpl (.un (.hide (some i)) f) args = callImpl f (args.eraseIdx i) := by
   have := argsImpl_eq_argsSpec (.hide (some i)) args (by simp [nodeArity, h])
-  simp only [callImpl, this, argsSpec, Outcome.mapRes]
+  simp only [callImpl_un, this, argsSpec, Outcome.mapRes]
   cases (callImpl f (args.eraseIdx i)) with
   | mk log res => cases res <;> rfl
 
@@ -71,7 +79,7 @@ theorem hide_last (args : List Val) (f : FExpr) (h : args ≠ []) :
     callImpl (.un (.hide none) f) args = callImpl f args.dropLast := by
   have hl : 0 < args.length := List.length_pos_iff.mpr h
   have := argsImpl_eq_argsSpec (.hide none) args (by simp [nodeArity, hl])
-  simp only [callImpl, this, argsSpec, Outcome.mapRes]
+  simp only [callImpl_un, this, argsSpec, Outcome.mapRes]
   cases (callImpl f args.dropLast) with
   | mk log res => cases res <;> rfl
 
@@ -101,15 +109,15 @@ theorem result_clauses (f : FExpr) (args : List Val) (v : Val) (h : (callImpl f 
     ∧ (∀ c, callImpl (.exceptionCatch f c) args = callImpl f args)
     ∧ (∀ s, (callImpl (.compose1 s f) args).res = (callImpl s [v]).res) := by
   refine ⟨?_, ?_, ?_, ?_, ?_, ?_⟩
-  · intro r; simp [callImpl, argsImpl, Outcome.mapRes, h, Res.map, resOf]
-  · simp [callImpl, argsImpl, Outcome.mapRes, h, Res.map, resOf]
-  · intro b; simp [callImpl, argsImpl, Outcome.mapRes, h, Res.map, resOf]
+  · intro r; simp [callImpl_un, argsImpl, Outcome.mapRes, h, Res.map, resOf]
+  · simp [callImpl_un, argsImpl, Outcome.mapRes, h, Res.map, resOf]
+  · intro b; simp [callImpl_un, argsImpl, Outcome.mapRes, h, Res.map, resOf]
   · intro n
-    simp only [callImpl, argsImpl, Outcome.mapRes]
+    simp only [callImpl_un, argsImpl, Outcome.mapRes]
     cases callImpl f args with
     | mk log res => cases res <;> rfl
-  · intro c; simp [callImpl, h]
-  · intro s; simp [callImpl, Outcome.andThen, h]
+  · intro c; simp [callImpl_exceptionCatch, Outcome.orCatch, h]
+  · intro s; simp [callImpl_compose1, Outcome.andThen, h]
 
 example : (callImpl (.leaf 3 [.dbl] (some .dbl) false) [.num .dbl 27]).res = .ok (.num .dbl 3025) := by decide
 
@@ -117,9 +125,161 @@ example : (callImpl (.leaf 3 [.dbl] (some .dbl) false) [.num .dbl 27]).res = .ok
 theorem exception_catch_throw (f c : FExpr) (args : List Val) (h : (callImpl f args).res = .threw) :
     (callImpl (.exceptionCatch f c) args).res = (callImpl c []).res
     ∧ (callImpl (.exceptionCatch f c) args).log = (callImpl f args).log ++ (callImpl c []).log := by
-  simp [callImpl, h]
+  simp [callImpl_exceptionCatch, Outcome.orCatch, h]
 
 example : (callImpl (.leaf 3 [.int] (some .int) true) [.num .int 1]).res = .threw := by decide
+
+/-- every row of the result table of the current code is `decltype(auto)` or a declared return type — none decays -/
+theorem resultMode_forwarding : ∀ k, resultMode k ≠ .decays := resultMode_ne_decays
+
+/-- **Result identity.**  When the wrapped functor returns a reference to object `cell`, so do — for all arguments,
+    at any nesting depth of `f` — `bind`, `hide`, `retype`, `track_object`, `exception_catch` (also when the
+    reference comes from the catcher), `compose` (the setter's result) and `retype_return<T&>`; conversion to a value
+    happens only where a value type is named (`retype_return<T>`, `slot<T(...)>`). -/
+theorem result_identity (f : FExpr) (args : List Val) (c : Bool) (t : Ty) (cell : Nat) (n : Int) :
+    (∀ nd : Node, nd.forwards = true → (callImpl f (argsImpl nd args)).res = .ok (.ref c t cell n) →
+        (callImpl (.un nd f) args).res = .ok (.ref c t cell n))
+    ∧ (∀ k, (callImpl f args).res = .ok (.ref c t cell n) → (callImpl (.exceptionCatch f k) args).res = .ok (.ref c t cell n))
+    ∧ (∀ g, (callImpl g args).res = .threw → (callImpl f []).res = .ok (.ref c t cell n) →
+        (callImpl (.exceptionCatch g f) args).res = .ok (.ref c t cell n))
+    ∧ (∀ g v, (callImpl g args).res = .ok v → (callImpl f [v]).res = .ok (.ref c t cell n) →
+        (callImpl (.compose1 f g) args).res = .ok (.ref c t cell n))
+    ∧ (∀ g1 g2 v1 v2, (callImpl g1 args).res = .ok v1 → (callImpl g2 args).res = .ok v2 →
+        (callImpl f [v1, v2]).res = .ok (.ref c t cell n) →
+        (callImpl (.compose2 f g1 g2) args).res = .ok (.ref c t cell n))
+    ∧ (∀ c', (callImpl f args).res = .ok (.ref c t cell n) →
+        (callImpl (.un (.retypeReturnRef c' t) f) args).res = .ok (.ref c' t cell n))
+    ∧ (∀ r, (callImpl f args).res = .ok (.ref c t cell n) →
+        (callImpl (.un (.retypeReturn r) f) args).res = .ok (convNum r t n)) := by
+  refine ⟨?_, ?_, ?_, ?_, ?_, ?_, ?_⟩
+  · intro nd hk h
+    rw [callImpl_un]
+    simp only [Outcome.mapRes, h, Res.map]
+    cases nd <;> simp [Node.forwards] at hk <;> rfl
+  · intro k h; simp [callImpl_exceptionCatch, Outcome.orCatch, h]
+  · intro g hg h; simp [callImpl_exceptionCatch, Outcome.orCatch, hg, h]
+  · intro g v hg h; simp [callImpl_compose1, Outcome.andThen, hg, h]
+  · intro g1 g2 v1 v2 h1 h2 h; simp [callImpl_compose2, Outcome.andThen, h1, h2, h]
+  · intro c' h; simp [callImpl_un, argsImpl, Outcome.mapRes, h, Res.map, resOf]
+  · intro r h; simp [callImpl_un, argsImpl, Outcome.mapRes, h, Res.map, resOf, conv]
+
+-- bind<0>(exception_catch(hide(track_object(f, t)), c), 4) where f returns `long&` to its pool object 0:
+-- the result is that reference; when f throws it is the catcher's reference (object 1)
+example :
+    let f (thr : Bool) := FExpr.un (.bind (some 0) [.num .int 4]) (.exceptionCatch
+      (.un (.hide none) (.un (.trackObj 1) (.rleaf 0 [.int] false .long thr))) (.rleaf 1 [] false .long false))
+    wellTyped (f false) 1 = true
+    ∧ (callImpl (f false) [.num .int 9]).res = .ok (.ref false .long 0 4)
+    ∧ (callImpl (f true) [.num .int 9]).res = .ok (.ref false .long 1 100)
+    ∧ (callImpl (.un (.retypeReturnRef true .long) (f false)) [.num .int 9]).res = .ok (.ref true .long 0 4)
+    ∧ (callImpl (.un (.retypeReturn .dbl) (f false)) [.num .int 9]).res = .ok (.num .dbl 40) := by decide
+
+/-- **Bound references.**  `bind_return(f, std::ref(x))` / `std::cref(x)` returns the reference to `x` itself (zero
+    copies) — called without arguments (the separate nullary overload) or with arguments, for every `f` that returns
+    normally, and also below `hide`, `bind`, `track_object`, `retype` and as the getter of `compose`, whose setter then
+    receives the value of `x`. -/
+theorem bound_result_identity (f : FExpr) (c : Bool) (t : Ty) (cell : Nat) (n : Int) :
+    let br := FExpr.un (.bindReturn (.ref c t cell n)) f
+    (∀ args v, (callImpl f args).res = .ok v → (callImpl br args).res = .ok (.ref c t cell n))
+    ∧ (∀ v, (callImpl f []).res = .ok v → (callImpl br []).res = .ok (.ref c t cell n))
+    ∧ (∀ nd : Node, nd.forwards = true → ∀ args v, (callImpl f (argsImpl nd args)).res = .ok v →
+        (callImpl (.un nd br) args).res = .ok (.ref c t cell n))
+    ∧ (∀ s args v, (callImpl f args).res = .ok v →
+        (callImpl (.compose1 s br) args).res = (callImpl s [.ref c t cell n]).res) :=
+  bindReturn_ref_result f c t cell n
+
+-- bind_return(&nullary, std::cref(x))() and hide(bind_return(&nullary, std::cref(x)))(42): the reference to x (pool
+-- object 100 holding 7), not a copy
+example :
+    let br := FExpr.un (.bindReturn (.ref true .long 100 7)) (.leaf 0 [] none false)
+    wellTyped br 0 = true ∧ wellTyped (.un (.hide none) br) 1 = true
+    ∧ (callImpl br []).res = .ok (.ref true .long 100 7)
+    ∧ (callImpl (.un (.hide none) br) [.num .int 42]).res = .ok (.ref true .long 100 7)
+    ∧ (callImpl (.compose1 (.leaf 1 [.long] (some .long) false) br) []).res = .ok (.num .long 107) := by decide
+
+/-- the result table of a code in which `exception_catch` hands both results through
+    `static_cast<std::common_type_t<...>>` (both overloads) -/
+def tableDecay : ResSite → ResMode
+  | .exceptionCatch0 => .decays
+  | .exceptionCatch => .decays
+  | k => resultMode k
+
+/-- **Decay witness.**  With a decaying row `impl_eq_spec` is false: `exception_catch(f, c)(3)` with `f`, `c`
+    returning `long&` yields a copy (a value) where the documentation yields the reference to `f`'s object — also
+    below `bind`; value-returning functors do not see the difference. -/
+theorem decay_witness :
+    let f := FExpr.rleaf 0 [.int] false .long false
+    let c := FExpr.rleaf 1 [] false .long false
+    let e := FExpr.exceptionCatch f c
+    wellTyped e 1 = true
+    ∧ (callSpec e [.num .int 3]).res = .ok (.ref false .long 0 3)
+    ∧ (callImplT tableDecay e false [.num .int 3]).res = .ok (.num .long 3)
+    ∧ (callImplT tableDecay (.un (.bind none [.num .int 3]) (.un (.hide none) e)) false [.num .int 5]).res = .ok (.num .long 5)
+    ∧ callImpl e [.num .int 3] = callSpec e [.num .int 3]
+    ∧ callImplT tableDecay (.exceptionCatch (.leaf 0 [.int] (some .long) false) (.leaf 1 [] (some .long) false)) false
+          [.num .int 3]
+        = callSpec (.exceptionCatch (.leaf 0 [.int] (some .long) false) (.leaf 1 [] (some .long) false)) [.num .int 3] := by
+  decide
+
+/-- the result table of a code in which the nullary overload `bind_return_functor::operator()()` is declared `auto` -/
+def tableAuto0 : ResSite → ResMode
+  | .bindReturn0 => .decays
+  | k => resultMode k
+
+/-- **Nullary-overload witness.**  With `auto` in the `bindReturn0` row, `bind_return(&nullary, std::cref(x))()` and
+    `hide(bind_return(&nullary, std::cref(x)))(42)` yield a copy of `x`; the call with an argument (variadic overload)
+    and the call through `slot_call::call_it` (which names the template overload explicitly) still yield the reference —
+    which is why only direct and nested nullary calls expose it. -/
+theorem nullary_decay_witness :
+    let br0 := FExpr.un (.bindReturn (.ref true .long 100 7)) (.leaf 0 [] none false)
+    let br1 := FExpr.un (.bindReturn (.ref true .long 100 7)) (.leaf 0 [.int] none false)
+    (callSpec br0 []).res = .ok (.ref true .long 100 7)
+    ∧ (callImplT tableAuto0 br0 false []).res = .ok (.num .long 7)
+    ∧ (callImplT tableAuto0 (.un (.hide none) br0) false [.num .int 42]).res = .ok (.num .long 7)
+    ∧ (callImplT tableAuto0 br1 false [.num .int 1]).res = .ok (.ref true .long 100 7)
+    ∧ (callImplT tableAuto0 br0 true []).res = .ok (.ref true .long 100 7)
+    ∧ callImpl br0 [] = callSpec br0 [] := by
+  decide
+
+/-- **compose hands the getters' results themselves to the setter** — `compose(s, g)(x) = s(g(x))`,
+    `compose(s, g1, g2)(x) = s(g1(x), g2(x))` with the very results as argument expressions: a getter that returns a
+    reference gives the setter that object (a setter parameter declared `const T&` / `T&` IS the getter's object). -/
+theorem compose_passes_result (s g g1 g2 : FExpr) (args : List Val) :
+    callImpl (.compose1 s g) args = (callImpl g args).andThen (fun v => callImpl s [v])
+    ∧ callImpl (.compose2 s g1 g2) args
+        = (callImpl g1 args).andThen (fun v1 => (callImpl g2 args).andThen (fun v2 => callImpl s [v1, v2])) :=
+  ⟨callImpl_compose1 s g args, callImpl_compose2 s g1 g2 args⟩
+
+-- compose(s, g1, g2)(3): g1 returns long& (its pool object 0), g2 returns const long& (object 1); the setter's
+-- `const long&` parameters are those two objects; a `const long&` parameter fed from an int& result is a temporary
+example :
+    let e := FExpr.compose2 (.pleaf 2 [.long, .long] (some .long) false) (.rleaf 0 [.int] false .long false)
+      (.rleaf 1 [.int] true .long false)
+    wellTyped e 1 = true
+    ∧ (callImpl e [.num .int 3]).log
+        = [⟨0, [.num .int 3]⟩, ⟨1, [.num .int 3]⟩, ⟨2, [.ref true .long 0 3, .ref true .long 1 103]⟩]
+    ∧ (callImpl (.compose1 (.pleaf 1 [.long] none false) (.rleaf 0 [.int] false .int false)) [.num .int 3]).log
+        = [⟨0, [.num .int 3]⟩, ⟨1, [.num .long 3]⟩] := by decide
+
+/-- the result table of a code in which `compose2_functor` first stores the getters' results in `auto` locals -/
+def tableAutoLocals : ResSite → ResMode
+  | .compose2Arg => .decays
+  | k => resultMode k
+
+/-- **Getter-result witness.**  With `auto` locals in `compose2_functor::operator()` the setter no longer receives the
+    getters' objects but copies; getters returning values (and the one-getter `compose`) show no difference. -/
+theorem getter_decay_witness :
+    let s := FExpr.pleaf 2 [.long, .long] (some .long) false
+    let e := FExpr.compose2 s (.rleaf 0 [.int] false .long false) (.rleaf 1 [.int] true .long false)
+    let ev := FExpr.compose2 s (.leaf 0 [.int] (some .long) false) (.leaf 1 [.int] (some .long) false)
+    (callSpec e [.num .int 3]).log
+        = [⟨0, [.num .int 3]⟩, ⟨1, [.num .int 3]⟩, ⟨2, [.ref true .long 0 3, .ref true .long 1 103]⟩]
+    ∧ (callImplT tableAutoLocals e false [.num .int 3]).log
+        = [⟨0, [.num .int 3]⟩, ⟨1, [.num .int 3]⟩, ⟨2, [.num .long 3, .num .long 103]⟩]
+    ∧ callImplT tableAutoLocals ev false [.num .int 3] = callSpec ev [.num .int 3]
+    ∧ callImplT tableAutoLocals (.compose1 (.pleaf 2 [.long] none false) (.rleaf 0 [.int] false .long false)) false [.num .int 3]
+        = callSpec (.compose1 (.pleaf 2 [.long] none false) (.rleaf 0 [.int] false .long false)) [.num .int 3] := by
+  decide
 
 /-- direct call, call through a slot, emission of a signal holding that single slot: same received arguments,
     same result (the slot's declared return type being the functor's result type) -/
@@ -127,7 +287,8 @@ theorem routes_agree (e : FExpr) (args : List Val) (s : SlotM) (hf : s.f = e) (h
     (hret : (direct e args).res.map (retConv s.ret) = (direct e args).res) :
     s.call args = direct e args ∧ viaSignal s.ret [s] args = direct e args := by
   have hcall : callIt s args = direct e args := by
-    simp only [callIt, direct, Outcome.mapRes, hf] at hret ⊢
+    rw [callIt_eq]
+    simp only [direct, Outcome.mapRes, hf] at hret ⊢
     rw [hret]
   constructor
   · simp [SlotM.call, hc, hcall]
